@@ -23,7 +23,7 @@ RULE = ("case = strategy (6 + FunctionRFA with suppliers returning float / 0-d a
 REQUIRED_MONITORS = ["rfa_post", "c04:reject"]
 ASSUMPTIONS = ["x strictly increasing and finite, y finite, strategy parameters in the documented ranges"]
 NSHARDS = 16
-SUPPLIERS = ["float", "zero_d", "npscalar", "pchip"]
+SUPPLIERS = ["float", "zero_d", "npscalar", "pchip", "const", "reduce", "branching"]
 
 
 def plan(tier, seed):
@@ -34,6 +34,18 @@ def plan(tier, seed):
 
 def supplier(kind):
     def make(x, y):
+        # documented contract: f(float) -> float.  Some of these accept an array without complaint but do not
+        # map it elementwise (a strategy that calls f once with the whole grid would silently get garbage).
+        if kind == "const":
+            c = float(np.mean(y))
+            return lambda t: c
+        if kind == "reduce":
+            xa, ya = np.asarray(x, dtype=float), np.asarray(y, dtype=float)
+            return lambda t: float(np.mean(ya[np.clip(np.searchsorted(xa, t), 0, len(ya) - 1)]))
+        if kind == "branching":
+            xa, ya = np.asarray(x, dtype=float), np.asarray(y, dtype=float)
+            mid = float(xa[len(xa) // 2])
+            return lambda t: float(ya[0]) if t < mid else float(ya[-1])
         cs = CubicSpline(x, y) if kind != "pchip" else PchipInterpolator(x, y)
         if kind == "float":
             return lambda t: float(cs(t))
@@ -53,7 +65,7 @@ def run_case(ctx, kind_, idx):
     n = R.gen_n(rng)
     kw, _a = R.gen_params(rng, strat if strat != "FunctionRFA" else "CubicSplineRFA", n)
     if strat == "FunctionRFA":
-        sk = SUPPLIERS[int(rng.integers(0, 4))]
+        sk = SUPPLIERS[int(rng.integers(0, len(SUPPLIERS)))]
         kw = {"sampling_function_supplier": supplier(sk)}
         meta["supplier"] = sk
     n_arg = np.int64(n) if rng.integers(0, 4) == 0 else n
